@@ -72,6 +72,16 @@ def cosine_similarity(
     y_pred: pd.DataFrame | pd.Series,
     y_true: pd.DataFrame | pd.Series,
 ) -> float:
-    """Calculate root mean square error between model and data."""
-    norm = np.linalg.norm
-    return cast(float, -np.sum(norm(y_pred, 2) * norm(y_true, 2)))
+    """Calculate negative cosine similarity between model and data.
+
+    -1 if both point in the same direction, independent of their magnitudes.
+    Entries are matched by label, entries without a partner are ignored.
+    """
+    pred = y_pred + 0 * y_true
+    true = y_true + 0 * y_pred
+    dot = np.nansum(np.asarray(pred * true, dtype=float))
+    norms = np.sqrt(
+        np.nansum(np.asarray(pred * pred, dtype=float))
+        * np.nansum(np.asarray(true * true, dtype=float))
+    )
+    return cast(float, -dot / norms)
